@@ -22,7 +22,7 @@ def showNode (n : Node) : String :=
   s!"{n.tag}.{n.addr}.{if n.bad then 1 else 0}.{n.rtt}"
 
 def showBucket (b : Bucket) : String :=
-  showBits b.pfx ++ "=" ++ ",".intercalate (b.nodes.map showNode)
+  showBits b.pfx ++ "/" ++ toString b.cap ++ "=" ++ ",".intercalate (b.nodes.map showNode)
 
 /-- insertion sort on strings / naturals for canonical output -/
 def insSorted {α : Type} (lt : α → α → Bool) (x : α) : List α → List α
@@ -36,12 +36,12 @@ def step (st : St) (toks : List String) : St × String :=
   match toks with
   | ["rt.new", me, m] =>
     match bits? me, m.toNat? with
-    | some me, some m => ({ st with m := m, rt := RT.init me }, "ok")
+    | some me, some m => ({ st with m := m, rt := RT.init me m }, "ok")
     | _, _ => bad
   | ["rt.add", id, f, rc, rtt, addr, tag] =>
     match bits? id, f.toNat?, bool? rc, rtt.toNat?, addr.toNat?, tag.toNat? with
     | some id, some f, some rc, some rtt, some addr, some tag =>
-      let r := st.rt.add st.m { id := id, failed := f, recent := rc, rtt := rtt, addr := addr, tag := tag }
+      let r := st.rt.add { id := id, failed := f, recent := rc, rtt := rtt, addr := addr, tag := tag }
       ({ st with rt := r.1 },
         match r.2 with
         | .stored x => s!"stored {x.tag} {x.addr}"
@@ -65,7 +65,7 @@ def step (st : St) (toks : List String) : St × String :=
     | some f, some rc => (st, toString ({ id := [], failed := f, recent := rc, rtt := 0, addr := 0, tag := 0 } : Node).status)
     | _, _ => bad
   | ["rt.closest", target, k, excl] =>
-    match bits? target, k.toNat? with
+    match bits? target, (if k == "default" then some Gen.closestDefaultK else k.toNat?) with
     | some target, some k =>
       let ex : Option (Option Bits) := if excl == "none" then some none else (bits? excl).map some
       match ex with
@@ -87,11 +87,13 @@ def step (st : St) (toks : List String) : St × String :=
     (st, "|".intercalate (sortBy (fun a b => a < b) items))
   | ["rt.genid", pfx, width, r] =>
     match bits? pfx, width.toNat?, r.toNat? with
-    | some pfx, some w, some r => (st, showBits (Bucket.generateId w { pfx := pfx, nodes := [] } r))
+    | some pfx, some w, some r =>
+      (st, match Bucket.generateId w { pfx := pfx, nodes := [], cap := 0 } r with | some id => showBits id | none => "raised")
     | _, _, _ => bad
   | ["rt.genid_old", pfx, width, r] =>
     match bits? pfx, width.toNat?, r.toNat? with
-    | some pfx, some w, some r => (st, showBits (Bucket.generateIdOld w { pfx := pfx, nodes := [] } r))
+    | some pfx, some w, some r =>
+      (st, match Bucket.generateIdOld w { pfx := pfx, nodes := [], cap := 0 } r with | some id => showBits id | none => "raised")
     | _, _, _ => bad
   | ["dist", a, b] =>
     match bits? a, bits? b with
@@ -114,6 +116,14 @@ def step (st : St) (toks : List String) : St × String :=
     match bits? k with
     | some k => (st, match st.trie.lpi (fun v => v != 0) k with | some (p, v) => showBits p ++ " " ++ toString v | none => "none")
     | none => bad
+  | ["t.lp", k] =>
+    match bits? k with
+    | some k => (st, match st.trie.lpi (fun v => v != 0) k with | some (p, _) => showBits p | none => "none")
+    | none => bad
+  | ["t.lpv", k] =>
+    match bits? k with
+    | some k => (st, match st.trie.lpi (fun v => v != 0) k with | some (_, v) => toString v | none => "none")
+    | none => bad
   | ["t.suf", k] =>
     match bits? k with
     | some k => (st, Proto.showStrList (sortBy (fun a b => a < b) ((st.trie.suffixes k).map showBits)))
@@ -122,4 +132,4 @@ def step (st : St) (toks : List String) : St × String :=
   | ["t.keys"] => (st, Proto.showStrList (sortBy (fun a b => a < b) (st.trie.keys.map showBits)))
   | _ => bad
 
-def main : IO Unit := Proto.run ({ m := 8, rt := RT.init [], trie := Trie.empty } : St) step
+def main : IO Unit := Proto.run ({ m := 8, rt := RT.init [] 8, trie := Trie.empty } : St) step
